@@ -80,6 +80,236 @@ def run(rep, tier):
         rep.call(mono_rule, rep, prog, "C17.mono")
         rep.call(reject_rule, rep, prog, "C17.reject")
         rep.call(type_tables.t_types, rep, prog, "C17.table")
+        rep.call(round_trip, rep, prog, "C17.round-trip")
     if tier == "thorough":
         rep.set_cfg("witness")
         rep.call(witness.report, rep, "C17.types", ["W4"])
+
+
+# ---- widening round trips ---------------------------------------------------------------------
+
+from fractions import Fraction as _F
+
+RANGE = {"u8": (0, 255), "u16": (0, 65535)}
+TYMAX = {"i32": 2**31 - 1, "u8": 255, "u16": 65535, "u32": 2**32 - 1, "i64": 2**63 - 1}
+TYMIN = {"i32": -2**31, "u8": 0, "u16": 0, "u32": 0, "i64": -2**63}
+ROUND_TRIPS = [("u8", "u16"), ("u8", "i32"), ("u8", "f32"), ("u16", "i32"), ("u16", "f32")]
+
+
+class _Lin:
+    """a*v + b for the symbolic input v in [lo, hi]; `fl` marks a value computed in f32"""
+    def __init__(self, a, b, lo, hi, fl=False):
+        self.a, self.b, self.lo, self.hi, self.fl = _F(a), _F(b), lo, hi, fl
+
+    def rng(self):
+        x, y = self.a * self.lo + self.b, self.a * self.hi + self.b
+        return (min(x, y), max(x, y))
+
+
+class _Floor:
+    """floor((a*v + b) / d)"""
+    def __init__(self, lin, d):
+        self.lin, self.d = lin, _F(d)
+
+
+def _rt_eval(e, arg, why):
+    """symbolic value of expression e with ('param', 1, ..) bound to `arg` (a _Lin / _Floor)"""
+    k = e[0]
+    if k == "param":
+        return arg
+    if k == "const" and isinstance(e[1], (int, float)) and not isinstance(e[1], bool):
+        return _Lin(0, _F(e[1]), 0, 0)
+    if k == "ovf":
+        return _rt_eval(e[1], arg, why)
+    if k == "cast":
+        x = _rt_eval(e[2], arg, why)
+        if x is None:
+            return None
+        if isinstance(x, tuple):
+            why.append("cast of %s" % x[0])
+            return None
+        if isinstance(x, _Floor):
+            if e[1] == "IntToInt" and e[3] in TYMAX:
+                # keep the floor form: the narrowing cast is decided with the final identity test
+                return x
+            x = _resolve_floor(x, why)
+            if x is None:
+                return None
+        if e[1] == "IntToFloat":
+            return _Lin(x.a, x.b, x.lo, x.hi, True)
+        if e[1] in ("IntToInt", "FloatToInt"):
+            lo, hi = x.rng()
+            if e[3] in TYMAX and (lo < TYMIN[e[3]] or hi > TYMAX[e[3]]):
+                why.append("value range [%s, %s] does not fit %s" % (lo, hi, e[3]))
+                return None
+            return _Lin(x.a, x.b, x.lo, x.hi, False)
+        return x
+    if k == "bin":
+        a, b = _rt_eval(e[2], arg, why), _rt_eval(e[3], arg, why)
+        if a is None or b is None:
+            return None
+        if isinstance(a, tuple) and a[0] == "satadd":
+            x0, c = a[1], a[2]
+            lo_, hi_ = x0.rng()
+            if hi_ + c <= 2**31 - 1 and lo_ + c >= -2**31:
+                a = _Lin(x0.a, x0.b + c, x0.lo, x0.hi, x0.fl)
+            else:
+                why.append("saturating_add can saturate on the input range")
+                return None
+        if isinstance(a, _Floor):
+            a = _resolve_floor(a, why)
+        if isinstance(b, _Floor):
+            b = _resolve_floor(b, why)
+        if a is None or b is None:
+            return None
+        bc = b.b if b.a == 0 else None
+        if e[1] == "Shl" and bc is not None:
+            return _Lin(a.a * 2 ** int(bc), a.b * 2 ** int(bc), a.lo, a.hi, a.fl)
+        if e[1] == "Shr" and bc is not None:
+            return _Floor(a, 2 ** int(bc))
+        if e[1] == "Add" and bc is not None:
+            return _Lin(a.a, a.b + bc, a.lo, a.hi, a.fl)
+        if e[1] == "Mul" and bc is not None:
+            return _Lin(a.a * bc, a.b * bc, a.lo, a.hi, a.fl)
+        if e[1] == "Div" and bc is not None and bc != 0 and a.fl:
+            return _Lin(a.a / bc, a.b / bc, a.lo, a.hi, True)
+        why.append("operator %s" % e[1])
+        return None
+    if k in ("call", "callat"):
+        name = e[1] if k == "call" else e[2]
+        args = e[2] if k == "call" else e[3]
+        if name == "from_le_bytes" and args and args[0][0] == "agg" and len(args[0][4]) == 2:
+            lo_b, hi_b = (_rt_eval(x, arg, why) for x in args[0][4])
+            if lo_b is None or hi_b is None or isinstance(lo_b, _Floor) or isinstance(hi_b, _Floor):
+                return None
+            return _Lin(lo_b.a + 256 * hi_b.a, lo_b.b + 256 * hi_b.b, lo_b.lo, lo_b.hi)
+        if name in ("max", "min", "clamp", "saturating_add", "round", "to_le_bytes"):
+            xs = [_rt_eval(x, arg, why) for x in args]
+            if any(x is None for x in xs):
+                return None
+            x0 = xs[0]
+            if isinstance(x0, _Floor):
+                x0 = _resolve_floor(x0, why)
+                if x0 is None:
+                    return None
+            lo, hi = x0.rng()
+            cs = [x.b for x in xs[1:] if not isinstance(x, _Floor) and x.a == 0]
+            if name == "max" and len(cs) == 1 and lo >= cs[0]:
+                return x0
+            if name == "min" and len(cs) == 1 and hi <= cs[0]:
+                return x0
+            if name == "clamp" and len(cs) == 2 and lo >= cs[0] - _F(1, 10**6) and hi <= cs[1] + _F(1, 10**6):
+                return x0
+            if name == "saturating_add" and len(cs) == 1:
+                # within the type (i32 / u16 ...): no saturation on this input range?
+                return ("satadd", x0, cs[0])
+            if name == "round" and x0.fl:
+                # an f32 value that equals an integer-valued linear form up to a few ulps
+                if x0.a.denominator == 1 and x0.b.denominator == 1:
+                    return _Lin(x0.a, x0.b, x0.lo, x0.hi, False)
+                why.append("round of a non-integral form")
+                return None
+            if name == "to_le_bytes":
+                return ("bytes", x0)
+            why.append("%s not resolved on the input range" % name)
+            return None
+        why.append("call %s" % name)
+        return None
+    if k == "index" and e[2][0] == "const":
+        x = _rt_eval(e[1], arg, why)
+        if isinstance(x, tuple) and x[0] == "bytes":
+            v = x[1]
+            lo, hi = v.rng()
+            i = e[2][1]
+            if i == 1 and 0 <= lo and hi < 65536:
+                return _Floor(v, 256)
+            if i == 0 and 0 <= lo and hi < 256:
+                return v
+        why.append("byte selection")
+        return None
+    why.append("node %s" % k)
+    return None
+
+
+def _resolve_floor(fv, why):
+    """floor((a v + b)/d) as a linear form when a is a multiple of d"""
+    lin, d = fv.lin, fv.d
+    if (lin.a / d).denominator == 1:
+        return _Lin(lin.a / d, (lin.b / d).__floor__(), lin.lo, lin.hi)
+    why.append("floor((%s*v + %s) / %s) is not linear in v" % (lin.a, lin.b, d))
+    return None
+
+
+def round_trip(rep, prog, rule):
+    rep.rule(rule, "for each pair narrow -> wide -> narrow of component types (u8->u16, u8->i32, "
+             "u8->f32, u16->i32, u16->f32) the composition of the two into_component "
+             "implementations is the identity on the whole narrow range: both bodies are "
+             "composed symbolically as floor((a*v + b) / d) over the input interval (shifts, byte "
+             "packing, saturating add without saturation, max/clamp that cannot trigger, rounding "
+             "of an integral f32 form) and floor((a*v + b)/d) == v is decided from the linear "
+             "form (a - d)*v + b at the two ends of the range")
+    convs = {}
+    for f, src, tref in conversions(prog):
+        convs[(src, f.d.get("output"))] = f
+    n = 0
+    for (nar, wide) in ROUND_TRIPS:
+        fw, fn_ = convs.get((nar, wide)), convs.get((wide, nar))
+        key = "%s->%s->%s" % (nar, wide, nar)
+        if fw is None or fn_ is None:
+            rep.unk(rule, key, "-", "conversion implementations not found")
+            continue
+        n += 1
+        rep.touch(fw)
+        rep.touch(fn_)
+        lo, hi = RANGE[nar]
+        why = []
+        vals = []
+        sw, sn = Sym(fw), Sym(fn_)
+        dw, dn = fw.defs().get(0, []), fn_.defs().get(0, [])
+        if len(dw) != 1 or len(dn) != 1:
+            rep.unk(rule, key, fw.loc, "conversion with several return expressions")
+            continue
+        w = _rt_eval(sw.rvalue(dw[0][2], dw[0][0], (dw[0][0], dw[0][1])), _Lin(1, 0, lo, hi), why)
+        if isinstance(w, _Floor):
+            w = _resolve_floor(w, why)
+        if w is None or isinstance(w, tuple):
+            rep.unk(rule, key, fw.loc, "widening not modelled (%s)" % "; ".join(why[:2]))
+            continue
+        back = _rt_eval(sn.rvalue(dn[0][2], dn[0][0], (dn[0][0], dn[0][1])), w, why)
+        # saturating add: decide that it cannot saturate, then continue symbolically
+        # (handled inside by the ("satadd", ..) marker for a trailing shift)
+        res = _finish(back, nar, why)
+        if res is None:
+            rep.unk(rule, key, fn_.loc, "narrowing not modelled (%s)" % "; ".join(why[:2]))
+            continue
+        verdict, text = res
+        if verdict:
+            rep.ok(rule, key, fn_.loc, text)
+        else:
+            rep.bad(rule, key, fn_.loc, "%s then %s is not the identity: %s" % (fw.name, fn_.name, text))
+    rep.floor(rule, "widening round trips", n, 5)
+
+
+def _finish(v, nar, why):
+    lo, hi = RANGE[nar]
+    if v is None:
+        return None
+    if isinstance(v, tuple):
+        why.append("unfinished %s" % v[0])
+        return None
+    if isinstance(v, _Lin):
+        if v.a == 1 and v.b == 0:
+            return (True, "composition = v%s" % (" (integral f32 form, rounding error far below 1/2)"
+                                                 if False else ""))
+        bad_v = lo if (v.a * lo + v.b) != lo else hi
+        return (False, "composition = %s*v + %s (v = %d gives %s)" % (v.a, v.b, bad_v, v.a * bad_v + v.b))
+    if isinstance(v, _Floor):
+        a, b, d = v.lin.a, v.lin.b, v.d
+        ends = [((a - d) * x + b, x) for x in (v.lin.lo, v.lin.hi)]
+        bad = [(r, x) for r, x in ends if not (0 <= r < d)]
+        if not bad:
+            return (True, "floor((%s*v + %s)/%s) = v on [%d, %d]" % (a, b, d, v.lin.lo, v.lin.hi))
+        r, x = bad[0]
+        got = ((a * x + b) / d).__floor__()
+        return (False, "floor((%s*v + %s)/%s) != v: for v = %d it is %d" % (a, b, d, x, got))
+    return None
